@@ -23,6 +23,13 @@ const (
 // gate: every target is unreachable unless the call `chk` returned nil, and the passphrase argument
 // of chk derives from parameter pw of fn.
 func authGate(c *Ctx, key string, fn *ssa.Function, chk *ssa.Call, pwArg ssa.Value, pwParam string, targets []ssa.Instruction, what string) {
+	if chk != nil && chk.Parent() != fn && lexicalOutermost(chk.Parent()) != lexicalOutermost(fn) {
+		// the check sits in a phase helper the reference tree does not have: gate on the helper's call
+		if locs := findSteps(fn, func(cl *ssa.Call) bool { return cl == chk }, 2); len(locs) > 0 {
+			authGateLoc(c, key, fn, locs[0], pwArg, pwParam, targets, what)
+			return
+		}
+	}
 	authGateLoc(c, key, fn, stepLoc{Site: chk, Step: chk}, pwArg, pwParam, targets, what)
 }
 
@@ -63,7 +70,7 @@ func firstCall(fn *ssa.Function, ids ...string) *ssa.Call {
 
 func updateCallsIn(fn *ssa.Function) []ssa.Instruction {
 	var out []ssa.Instruction
-	for _, s := range txSites(fn) {
+	for _, s := range txSitesBody(fn) {
 		if s.Write {
 			out = append(out, s.Call)
 		}
@@ -890,10 +897,51 @@ func checkSamePassphraseGates(c *Ctx, rule string) {
 			c.Bad(rule, key, c.Pos(f.Pos()), "reason=anchor-missing: same-passphrase check or db.Update")
 			continue
 		}
+		// the check (with its loop over the existing keystores) may sit in a gate helper the reference tree
+		// does not have: the loop rules are then evaluated in the helper against its successful returns,
+		// and the operation must stop when the helper fails
+		fTop := f
+		checked := chk.Call.Args[1]
+		var gateSite *ssa.Call
+		gateOK := true
+		if host := hostFn(f, chk); host != f && host.Parent() == nil {
+			gateOK = false
+			if site, ok := siteIn(f, chk).(*ssa.Call); ok && site != nil && site.Parent() == f && site.Call.StaticCallee() == host && len(errResults(site)) > 0 {
+				valueOriginsLocal(host, chk.Call.Args[1], func(r ssa.Value) {
+					if p, isP := r.(*ssa.Parameter); isP {
+						for i, q := range host.Params {
+							if q == p && i < len(site.Call.Args) {
+								checked = site.Call.Args[i]
+								gateSite = site
+								gateOK = true
+							}
+						}
+					}
+				})
+			}
+			if gateOK {
+				// in the caller: the store is reached only after the gate, and not when the gate failed
+				rPre := reach(fTop, nil, nil, func(in ssa.Instruction) bool { return in == ssa.Instruction(gateSite) })
+				rFail := reach(fTop, gateSite, errorEdgeCut(fTop, gateSite, false), nil)
+				for _, u := range upd {
+					if rPre(u) || rFail(u) {
+						gateOK = false
+					}
+				}
+				f = host
+				upd = nil
+				for _, ret := range returnsOf(host) {
+					if isNilErrorReturn(ret) {
+						upd = append(upd, ret)
+					}
+				}
+			}
+		}
 		// the passphrase checked is the one the new keystore is stored under: the same variable that is
 		// handed to create(privPassphrase) / allocAddrMgrNamespace(newPass), not assigned after the check
 		okArg := false
 		{
+			f := fTop
 			storeFn, storeParam := pkgKeystore+".create", "privPassphrase"
 			if spec.name == "ImportKeystore" {
 				storeFn, storeParam = "(*"+tKMC+").allocAddrMgrNamespace", "newPass"
@@ -915,19 +963,29 @@ func checkSamePassphraseGates(c *Ctx, rule string) {
 				}
 				return nil
 			}
-			chkCell := cellOfLoad(chk.Call.Args[1])
-			okArg = len(under) > 0
+			chkCell := cellOfLoad(checked)
+			okArg = len(under) > 0 && gateOK
 			for _, u := range under {
-				if u == chk.Call.Args[1] {
+				if u == checked {
 					continue
 				}
 				if uc := cellOfLoad(u); uc == nil || chkCell == nil || uc != chkCell {
-					okArg = false
+					// the store may sit in a phase helper the reference tree does not have (its own copy of
+					// the variable): the value stored and the value checked must then have exactly the same
+					// origins (reaching definitions, followed through the helpers' parameters)
+					same := instrParent(u) != instrParent(checked) && sameOriginSets(u, checked)
+					if !same {
+						okArg = false
+					}
 				}
 			}
 			if okArg && chkCell != nil {
 				// no assignment to the variable after the check
-				after := reach(f, chk, nil, nil)
+				var afterStart ssa.Instruction = chk
+				if gateSite != nil {
+					afterStart = gateSite
+				}
+				after := reach(f, afterStart, nil, nil)
 				for _, g := range withClosures(f) {
 					allInstrs(g, func(in ssa.Instruction) {
 						if st, ok := in.(*ssa.Store); ok && rootCell(st.Addr) == chkCell {
@@ -938,7 +996,7 @@ func checkSamePassphraseGates(c *Ctx, rule string) {
 					})
 				}
 			}
-			if !backSlice(chk.Call.Args[1]).hasParam(f, spec.pw) {
+			if !backSlice(checked).hasParam(f, spec.pw) {
 				okArg = false
 			}
 		}
